@@ -28,6 +28,9 @@ IterClauses(c, e) ==
     (IF e.niter # nit THEN {<<"C05.iter_numbering", e.stage>>} ELSE {})
     \cup (IF e.converged /\ ~WithinTol(e.errs, e.res, TolRank)
           THEN {<<"C05.converged_outside_tolerance", e.stage>>} ELSE {})
+    (* a residual vector holding NaN is not within any tolerance, whatever norm the driver forms of it *)
+    \cup (IF e.converged /\ "res_nan" \in DOMAIN e /\ e.res_nan
+          THEN {<<"C05.converged_outside_tolerance", e.stage \o ":nan_residual">>} ELSE {})
     \cup (IF e.converged /\ e.method = "automatic" /\ ~e.alpha_used_is1
           THEN {<<"C05.converged_on_damped_step", e.stage>>} ELSE {})
 IterNotes(c, e) ==
@@ -41,6 +44,9 @@ IterNotes(c, e) ==
 StageEndClauses(c, e) ==
     (IF e.niter # nit THEN {<<"C05.iteration_count", e.stage>>} ELSE {})
     \cup (IF e.niter > e.maxiter THEN {<<"C05.budget_exceeded", e.stage>>} ELSE {})
+    (* the limit of a stage is the documented option of THAT stage (max_iter_hyd / max_iter_therm / max_iter_bidirect) as resolved for the call *)
+    \cup (IF "optiter" \in DOMAIN e /\ e.optiter >= 0 /\ e.maxiter # e.optiter THEN {<<"C05.stage_limit_not_the_stage_option", e.stage>>} ELSE {})
+    \cup (IF "optiter" \in DOMAIN e /\ e.optiter >= 0 /\ e.niter > e.optiter THEN {<<"C05.budget_exceeded", e.stage>>} ELSE {})
     \cup (IF ~e.converged /\ e.niter # e.maxiter THEN {<<"C05.gave_up_before_budget", e.stage>>} ELSE {})
     \cup (IF e.converged /\ (nit = 0 \/ ("none" \in DOMAIN lastit) \/ ~lastit.converged)
           THEN {<<"C05.converged_without_converged_iteration", e.stage>>} ELSE {})
